@@ -74,3 +74,18 @@ def fields_read(F, fn, depth=2, _seen=None):
             if c in F.fns and c.startswith("steel"):
                 out |= fields_read(F, F.fns[c], depth - 1, seen)
     return out
+
+
+def reader_blocks(F, fn, adt_short, field, depth=2):
+    """blocks of fn in which (adt.field) is read: directly, inside a closure built there, or by a steel callee"""
+    out = set()
+    for i, e in lib.family_events(F, fn, "fld", cleanup=False):
+        if e[1].split("::")[0] == adt_short and e[2] == field:
+            out.add(i)
+    for i, b in lib.family_calls(F, fn):
+        c = b["callee"]
+        if c in F.fns and c.startswith("steel") and not re.search(
+                r"\{impl (Clone|Debug|Drop|PartialEq|Eq|Hash|Default|Display|PartialOrd|Ord)\b", c):
+            if (adt_short, field) in fields_read(F, F.fns[c], depth - 1):
+                out.add(i)
+    return out
